@@ -23,6 +23,7 @@ type vSession struct {
 	acked    []bool                   //   acknowledged already?
 	ackNow   bool                     // consumer acknowledges inside ConsumeEvent
 	advanced [vNVB]bool               // advanced (ack / non-document event) since the last successful save
+	reacked  [vNVB]bool               // an acknowledgement was accepted without moving the position (equal seqno) since then
 	failSave bool
 }
 
@@ -55,10 +56,15 @@ func (ss *vSession) nextOffset(vb int) *models.Offset {
 
 func (ss *vSession) ackIdx(i int) {
 	vb := ss.evVb[i]
+	before := ss.tracked(int(vb))
 	ss.fc.consumed[i].Ack()
 	ss.acked[i] = true
 	ss.settled[vb] = append(ss.settled[vb], ss.evOffset[i])
-	ss.advanced[vb] = true
+	if ss.tracked(int(vb)) != before {
+		ss.advanced[vb] = true // the acknowledgement moved the position
+	} else if ss.evOffset[i].SeqNo == before.SeqNo {
+		ss.reacked[vb] = true // repeated acknowledgement of the event at the tracked position
+	}
 }
 
 // deliverDoc feeds a document event with an ordinary key.
